@@ -55,7 +55,7 @@ Theorem C14_lockset_refuted :
 Proof. exact lockset_refuted_pool_enabled. Qed.
 Print Assumptions C14_lockset_refuted.
 
-(* refutation 2 (F23): the watcher goroutine reads dbConfig.Path with no lock, concurrently
+(* refutation 2 (F29): the watcher goroutine reads dbConfig.Path with no lock, concurrently
    with the write in Reload under reloadMu *)
 Theorem C14_lockset_refuted_dbpath :
   exists a b, In a accesses /\ In b accesses /\
